@@ -97,12 +97,21 @@ Definition rebalance (n : nat) (a : nat -> A) (i : nat) : A :=
     let scn := if o_ltb O sp sn then div sp sn else one in
     if o_ltb O zero (a i) then mul (a i) scp else mul (a i) scn.
 
+(* bool truncated: set when the truncation loop changed some coefficient (svm.alpha()(i,0) != a);
+   since /repo commit 73617c7d the rescaling runs under  if (truncated && sumPos != sumNeg)
+   (an untruncated old solution is handed over unchanged: restarting from the optimum needs 0 steps) *)
+Fixpoint truncated (p c : nat -> A) (m : nat) : bool :=
+  match m with
+  | 0 => false
+  | S k => truncated p c k || negb (o_eqb O (c k) (p k))
+  end.
+
 Definition init_alpha (bias : bool) (n : nat) (prev : option (nat -> A)) (lo hi : nat -> A) (i : nat) : A :=
   match prev with
   | None => zero
   | Some p =>
     let clipped := fun k => clip_box (p k) (lo k) (hi k) in
-    if bias then rebalance n clipped i else clipped i
+    if bias && truncated p clipped n then rebalance n clipped i else clipped i
   end.
 
 (* bias = m_trainOffset: SvmShrinkingProblem (equality constraint) / BoxConstrainedShrinkingProblem *)
@@ -145,7 +154,7 @@ Arguments q_init {A}. Arguments q_eq {A}. Arguments mkqp {A}.
 Arguments negA {A}. Arguments reg_decode {A}. Arguments reg_Cn {A}. Arguments reg_Cp {A}.
 Arguments csvm_lin {A}. Arguments csvm_lo {A}. Arguments csvm_hi {A}.
 Arguments csvmw_lo {A}. Arguments csvmw_hi {A}. Arguments clip_box {A}. Arguments init_alpha {A}.
-Arguments sum_pos {A}. Arguments sum_neg {A}. Arguments rebalance {A}.
+Arguments sum_pos {A}. Arguments sum_neg {A}. Arguments rebalance {A}. Arguments truncated {A}.
 Arguments csvm_problem {A}. Arguments csvmw_problem {A}.
 Arguments svr_lin {A}. Arguments svr_lo {A}. Arguments svr_hi {A}. Arguments svr_problem {A}.
 Arguments svr_coef {A}. Arguments oc_upper {A}. Arguments oc_problem {A}.
